@@ -3,4 +3,5 @@ let lookup (p : string) : Model.sexp -> Model.sexp =
   match p with
   | "c15" -> Model.run_c15
   | "c02" -> Model.run_c02
+  | "c14" -> Model.run_c14
   | _ -> failwith ("unknown property " ^ p)
